@@ -3,47 +3,36 @@ import Asts.Gen.Crd
 
 /-! # C15 (reconcile part) — no admitted object can crash the controller
 
-`updateStatefulSet` (the model of `stateful_set_control.go:289-594`) has two panic outcomes left: the nil `*Spec.Replicas`
+`updateStatefulSet` (the model of `stateful_set_control.go:289-594`) has two panic outcomes: the nil `*Spec.Replicas`
 dereference, excluded by the CRD (`replicas` is required, minimum 0), and the `firstUnhealthyPod.Name` dereference when the
-`math.MaxInt32` sentinel of the first-unhealthy scan is never undercut. The theorems below show that neither is reachable for
+first-unhealthy scan counts an unhealthy pod without recording one. The theorems below show that neither is reachable for
 an admitted object: every strategy / partition / policy shape (including `ru = some none`, i.e. `rollingUpdate: {}`, and
-negative partitions), every pod list whose ordinals are below `MaxInt32`, every fault plan.
+negative partitions), **every pod list** and every fault plan.
 
-**Hypothesis found necessary** (a finding about the model, not reachable through a real annotation): the scan also covers the
-fresh pod objects built for vacant slots, whose ordinals range up to `replicas + #slots - 1`. If that reaches `MaxInt32`
-(e.g. `replicas = 1`, slots `0 … 2^31-2`) the sentinel is hit in the model; in Go the `int32` arithmetic overflows before that.
-So the replica count returned by `GetMaxReplicaCountAndDeleteSlots` must stay `≤ MaxInt32`; `r + |slots| ≤ MaxInt32` suffices. -/
+History: on the pinned tree the scan compared ordinals strictly against its `math.MaxInt32` sentinel, so one unhealthy pod
+named `<set>-2147483647` was counted but not recorded and the reconcile panicked (found as the hypothesis "ordinals below
+MaxInt32" the proof forced; confirmed on the real code; repaired by the `fix:` commit 53b1b2a; the failing inputs are in
+`corpus/reconcile/defects-found-on-pinned-tree.txt`). The theorems no longer carry that hypothesis, nor a bound on
+`replicas + #slots`. -/
 namespace Asts.C15
 open Asts.L1c
 
-/-- **C15, reconcile part.** No panic for any admitted set, pod list and fault plan. -/
+/-- **C15, reconcile part.** No panic for any admitted set, any pod list and any fault plan. -/
 theorem C15_holds (v : SetView) (cur upd : String) (pods : List Pod) (f : Faults) (r : Int)
-    (hr : v.replicas = some r)
-    (hb : (maxReplicaAndSlots r v.slots).1 ≤ maxInt32)
-    (hord : ∀ p ∈ pods, p.ord < maxInt32) :
+    (hr : v.replicas = some r) :
     ∀ site, (updateStatefulSet v cur upd pods f).2 ≠ .panic site :=
-  fun site => Outcome.calm_ne_panic (updateStatefulSet_calm v cur upd pods f r hr hb hord) site
-
-/-- The same with the bound stated on the inputs: `replicas + (number of listed slots) ≤ MaxInt32`. -/
-theorem C15_holds_of_input_bound (v : SetView) (cur upd : String) (pods : List Pod) (f : Faults) (r : Int)
-    (hr : v.replicas = some r)
-    (hb : r + v.slots.length ≤ maxInt32)
-    (hord : ∀ p ∈ pods, p.ord < maxInt32) :
-    ∀ site, (updateStatefulSet v cur upd pods f).2 ≠ .panic site :=
-  C15_holds v cur upd pods f r hr (le_trans (maxReplica_le r v.slots) hb) hord
+  fun site => Outcome.calm_ne_panic (updateStatefulSet_calm' v cur upd pods f r hr) site
 
 /-- `Prop` reading: the outcome is `.ok` or `.err`. -/
 theorem C15_ok_or_err (v : SetView) (cur upd : String) (pods : List Pod) (f : Faults) (r : Int)
-    (hr : v.replicas = some r)
-    (hb : r + v.slots.length ≤ maxInt32)
-    (hord : ∀ p ∈ pods, p.ord < maxInt32) :
+    (hr : v.replicas = some r) :
     (updateStatefulSet v cur upd pods f).2 = .ok ∨ (updateStatefulSet v cur upd pods f).2 = .err :=
-  updateStatefulSet_calm v cur upd pods f r hr (le_trans (maxReplica_le r v.slots) hb) hord
+  updateStatefulSet_calm' v cur upd pods f r hr
 
-/-- The sentinel: if some scanned pod is unhealthy and every scanned ordinal is below `MaxInt32`, the scan returns a pod. -/
-theorem sentinel_unreachable (ps : List Pod) (hord : ∀ p ∈ ps, p.ord < maxInt32) (hun : ∃ p ∈ ps, p.healthy = false) :
+/-- The scan: if it counted an unhealthy pod it recorded one, whatever the ordinals. -/
+theorem scan_records_a_pod (ps : List Pod) (hpos : (firstUnhealthy ps).2 > 0) :
     (firstUnhealthy ps).1.isSome = true :=
-  firstUnhealthy_sentinel ps hord hun
+  firstUnhealthy_some' ps hpos
 
 /-- The three loops never produce a panic, whatever `prepare` returned. -/
 theorem loops_never_panic (v : SetView) (cur upd : String) (f : Faults) (p : Prepared) :
@@ -56,18 +45,19 @@ example :
                          deleting := false, generation := 1, stCurrentReplicas := 0 }
     let pods : List Pod := [{ id := 0, ord := 1, phase := .pending, ready := false, terminating := false, rev := "a",
                               idOk := true, stOk := true }]
-    v.replicas = some 2 ∧ (2 : Int) + v.slots.length ≤ maxInt32 ∧ (∀ p ∈ pods, p.ord < maxInt32) ∧
+    v.replicas = some 2 ∧
     (updateStatefulSet v "a" "b" pods [(0, 2)]).2 = .ok ∧
     (updateStatefulSet { v with ru := some (some (-3)) } "a" "b" pods []).2 = .ok := by decide
 
-/-- the sentinel is real: an unhealthy pod named `…-2147483647` defeats it (outside the property's stated range) -/
+/-- the repaired scan: an unhealthy pod named `…-2147483647` (the old sentinel) no longer defeats it; the pod is outside the
+    desired set and is the one scaled in -/
 example :
     (updateStatefulSet { replicas := some 1, slots := [], parallel := false, strat := .rolling, ru := none,
                          deleting := false, generation := 1, stCurrentReplicas := 0 } "a" "b"
       [{ id := 0, ord := 0, phase := .running, ready := true, terminating := false, rev := "a", idOk := true, stOk := true },
        { id := 1, ord := 2147483647, phase := .pending, ready := false, terminating := false, rev := "a", idOk := true,
          stOk := true }] []).2
-    = .panic "nil firstUnhealthyPod.Name (stateful_set_control.go:403)" := by decide
+    = .ok := by decide
 
 /-! ### The admission facts, read off the shipped CRD (`lean/Asts/Gen/Crd.lean` is regenerated from
     `/repo/manifests/crd.v1.yaml` on every check run, so these are re-checked against the file as it is now). -/
